@@ -198,6 +198,7 @@ type lStack struct {
 	top  ociregistry.Interface
 	mu   sync.Mutex
 	reqs []lReq
+	cap  int // page requests after which the recording handlers refuse (a pager that never ends)
 }
 
 func (st *lStack) take() []lReq {
@@ -223,8 +224,17 @@ func (st *lStack) recorder(hop int, univ []string, h http.Handler) http.Handler 
 			h.ServeHTTP(w, req)
 			return
 		}
+		st.mu.Lock()
+		over := st.cap > 0 && len(st.reqs) >= st.cap
+		st.mu.Unlock()
 		rec := httptest.NewRecorder()
-		h.ServeHTTP(rec, req)
+		if over {
+			// stop a listing that does not end by itself; the extra request stays in the log
+			rec.WriteHeader(http.StatusLoopDetected)
+			rec.Body.WriteString(`{"errors":[{"code":"VERIF_RUNAWAY","message":"too many page requests"}]}`)
+		} else {
+			h.ServeHTTP(rec, req)
+		}
 		q := req.URL.Query()
 		r := lReq{Hop: hop, N: -1, LastS: q.Get("last"), LinkLast: -1, LinkN: -1, Status: rec.Code}
 		if s := q.Get("n"); s != "" {
@@ -524,6 +534,7 @@ func (lr *lRunner) run(c *lCase) error {
 	ctx, cancel := context.WithTimeout(context.Background(), 20*time.Second)
 	defer cancel()
 	st.take()
+	st.cap = (len(c.Univ)+3)*(2<<strings.Count(c.Node.String(), "http")) + 50
 	panicked := func() (p any) {
 		defer func() { p = recover() }()
 		switch c.Kind {
